@@ -343,11 +343,18 @@ class Context:
 # ---------------------------------------------------------------------------------------------
 
 def load_known() -> list[dict]:
-    path = os.path.join(VERIF_DIR, "known_findings.json")
-    if not os.path.exists(path):
-        return []
-    with open(path, encoding="utf-8") as handle:
-        return json.load(handle)["findings"]
+    """ known_findings.json plus known/<ID>.json (same format) """
+    findings: list[dict] = []
+    paths = [os.path.join(VERIF_DIR, "known_findings.json")]
+    extra_dir = os.path.join(VERIF_DIR, "known")
+    if os.path.isdir(extra_dir):
+        paths.extend(os.path.join(extra_dir, name) for name in sorted(os.listdir(extra_dir)) if name.endswith(".json"))
+    for path in paths:
+        if not os.path.exists(path):
+            continue
+        with open(path, encoding="utf-8") as handle:
+            findings.extend(json.load(handle)["findings"])
+    return findings
 
 
 def find_module(prop: str) -> Any:
